@@ -132,3 +132,57 @@ func VerifC10_CursorConstructors() {
 	})
 	verifrt.Assert(!panicked, "C10 cursor constructors accept empty inputs ("+msg+")")
 }
+
+// ---- text that is not a sentence: characters the lexer does not recognise ----
+
+var vC10Bases = []string{`s = "x"`, `i > 1 and b`, `anyOf(roles) = "a" sort by s desc limit 2`, `s in ["x", "y"] or not (b)`}
+
+// characters that occur in no token of the grammar (outside string literals)
+var vC10BadChars = []string{"#", "$", "%", "&", "'", ";", "?", "@", "^", "`", "~", "{", "}", "|", "\\", "*", "/", "\x01", "\x7f", "é"}
+
+// verifC10Mutants: every base query with one unrecognised character inserted
+// at every position that is not inside a string literal.
+func verifC10Mutants() []string {
+	var out []string
+	for _, b := range vC10Bases {
+		inStr := false
+		for pos := 0; pos <= len(b); pos++ {
+			if pos > 0 && b[pos-1] == '"' {
+				inStr = !inStr
+			}
+			if inStr {
+				continue
+			}
+			for _, c := range vC10BadChars {
+				out = append(out, b[:pos]+c+b[pos:])
+			}
+		}
+	}
+	return out
+}
+
+func init() {
+	verifQueryFamilies = append(verifQueryFamilies, verifC10Mutants, func() []string { return vC10Bases })
+}
+
+// VerifC10_UnrecognisedCharactersRejected: a grammatical query into which one
+// character that belongs to no token has been inserted (anywhere outside a
+// string literal) is rejected with an error - it is not silently parsed as the
+// query without that character. The base queries themselves are accepted.
+func VerifC10_UnrecognisedCharactersRejected() {
+	st := newSymTab()
+	for name, typ := range map[string]NodeType{"s": NodeTypeString, "i": NodeTypeInt64, "b": NodeTypeBool} {
+		st.syms[name] = &vSym{typ: typ}
+	}
+	st.syms["roles"] = &vSym{typ: NodeTypeString, isSet: true}
+	for _, b := range vC10Bases {
+		_, err := Parse(st, b)
+		verifrt.Assert(err == nil, "C10 base query is accepted: "+b)
+	}
+	ms := verifC10Mutants()
+	m := ms[verifrt.Choose("mutant", len(ms))]
+	var err error
+	panicked, msg := verifrt.Catch(func() { _, err = Parse(st, m) })
+	verifrt.Assert(!panicked, "C10 parsing text with an unrecognised character does not panic ("+msg+")")
+	verifrt.Assert(err != nil, "C10 text containing a character the lexer does not recognise is rejected")
+}
